@@ -109,7 +109,7 @@ fn run(ctx: &Ctx, rep: &Report) {
     }
     // explicit residue sweep
     for s in 0..=40usize {
-        for n in [0usize, 1, 2, 7, 50] {
+        for n in [0usize, 1, 2, 7, 50, 255, 256, 257, 300, 1000] {
             let b = residue_package(s, n);
             rep.eval(1);
             match guard(|| Package::parse(&mut &b[..])) {
